@@ -491,7 +491,8 @@ pub fn strftime(ts: time::OffsetDateTime, fmt: &str) -> Result<String, DateForma
                                 if offset.is_negative() { '-' } else { '+' },
                                 offset.whole_hours().abs()
                             ),
-                            width = pad_width
+                            // the sign is part of this field, unlike in the zero-filled branch
+                            width = pad_width + 1
                         );
                     }
 
